@@ -210,6 +210,9 @@ def _is_initialiser(P, own, f, inits):
                 # returns the verdict of another initialiser directly: fails when that one fails, succeeds otherwise
                 fails_after_producer = True
                 rc = 0
+            elif rt[0] in ("call", "icall"):
+                # returns some callee's verdict: this is (also) a success path
+                rc = 0
         if rc is not None and rc < 0:
             for (a, p) in v.atoms:
                 t = a[2] if a[0] == "cmp" else (a[1] if a[0] == "truth" else None)
@@ -302,7 +305,8 @@ def clause2_ret(ctx, P, cg, own):
             limit = tail_pos[0] if may_fail_tail else 10 ** 9
             linked = [i for k, i in v.calls() if k < limit and reaches(i, ("list_add_tail", "list_add")) and
                       not (rc is not None and rc < 0 and _decides_failure(P, v, i))]
-            unlinked = [i for k, i in v.calls() if reaches(i, ("list_del",))]
+            tail_id = f.insts[rt[3]].id if (may_fail_tail and rt is not None) else None
+            unlinked = [i for k, i in v.calls() if i.id != tail_id and reaches(i, ("list_del",))]
             gst = [i for _, i in v.insts() if i.op == "store" and P.term(f, i.a[1])[0] == "global"]
             if (linked and len(unlinked) < len(linked)) or gst:
                 bad = (v, "links its argument into a list (through %s)" % P.srcname_of(linked[0].callee or "?") if linked
